@@ -718,4 +718,67 @@ inline void run_helpers(unsigned seed) {
     (void)seed;
 #endif
 }
+
+// ---- kernels translated by C08 that are not SIMDVector members: outer products, register transposes, norms ----------
+namespace sr {
+template<class T, size_t M, size_t N> void check_dyadic(Rep& R, unsigned seed) {
+    char nm[64]; std::snprintf(nm, sizeof nm, "kernel_dyadic_%zu_%zu", M, N);
+    R.begin(nm); Rng rng(seed * 5 + M * 7 + N);
+    // operands end exactly at an unmapped page (a read past the operand faults), result between canaries
+    long pg = sysconf(_SC_PAGESIZE);
+    char* base = (char*)mmap(nullptr, 4 * pg, PROT_READ | PROT_WRITE, MAP_PRIVATE | MAP_ANONYMOUS, -1, 0);
+    if (base == (char*)MAP_FAILED) { R.end(); return; }
+    mprotect(base + pg, pg, PROT_NONE); mprotect(base + 3 * pg, pg, PROT_NONE);
+    T* a = (T*)(base + pg) - M; T* b = (T*)(base + 3 * pg) - N;
+    struct sigaction sa, old; std::memset(&sa, 0, sizeof sa); sa.sa_handler = guard_handler; sigemptyset(&sa.sa_mask); sa.sa_flags = SA_NODEFER; sigaction(SIGSEGV, &sa, &old);
+    alignas(64) static T outbuf[64 + M * N + 64];
+    for (int k = 0; k < 40; ++k) {
+        for (size_t i = 0; i < M; ++i) a[i] = (T)((int)(rng.next() % 41) - 20) / (T)4;
+        for (size_t j = 0; j < N; ++j) b[j] = (T)((int)(rng.next() % 41) - 20) / (T)4;
+        for (size_t i = 0; i < 128 + M * N; ++i) outbuf[i] = canary<T>(i);
+        T* out = outbuf + 64;                    // 64-byte aligned (some specialisations use aligned stores)
+        if (sigsetjmp(guard_env(), 1)) { R.fail("fault inside the kernel: the operands (" + std::to_string(M) + " / " + std::to_string(N) + " elements) end at an unmapped page, the result is 64-byte aligned"); break; }
+        Fastor::_dyadic<T, M, N>(a, b, out);
+        for (size_t i = 0; i < M; ++i) for (size_t j = 0; j < N; ++j) { ++R.n; T w = a[i] * b[j];
+            if (!(out[i * N + j] == w)) R.fail("out[" + std::to_string(i * N + j) + "] a=" + hexv(a, M) + " b=" + hexv(b, N) + " got=" + hex(out[i * N + j]) + " want=" + hex(w)); }
+        for (size_t i = 0; i < 128 + M * N; ++i) { T* p = outbuf + i; if (p >= out && p < out + M * N) continue;
+            if (!same(*p, canary<T>(i))) { R.fail("element " + std::to_string((long)(p - out)) + " relative to the " + std::to_string(M * N) + "-element result was written"); break; } }
+    }
+    sigaction(SIGSEGV, &old, nullptr); munmap(base, 4 * pg);
+    R.end();
+}
+template<class T, size_t N> void check_norm(Rep& R, unsigned seed) {
+    char nm[64]; std::snprintf(nm, sizeof nm, "kernel_norm_%zu", N);
+    R.begin(nm); Rng rng(seed * 3 + N);
+    for (int k = 0; k < 60; ++k) { alignas(64) T a[N + 8]; volatile T acc = 0;
+        for (size_t i = 0; i < N; ++i) { a[i] = (T)((int)(rng.next() % 21) - 10); acc = acc + a[i] * a[i]; }   // integers: every association exact
+        T got = Fastor::_norm<T, N>(a); volatile T w = std::sqrt((T)acc); ++R.n;
+        if (!same(got, (T)w)) R.fail("a=" + hexv(a, N) + " got=" + hex(got) + " want=" + hex((T)w)); }
+    R.end();
+}
+} // namespace sr
+inline void run_kernels(unsigned seed) {
+    sr::Rep R; R.seed = seed;
+    for (int t = 0; t < 2; ++t) {
+        R.head = std::string("simd cfg=") + CFGNAME + " opt=" + OPTNAME + " T=" + (t ? "double" : "float") + " abi=kernel cls=kernel N=0";
+        if (t == 0) { sr::check_dyadic<float, 2, 2>(R, seed); sr::check_dyadic<float, 3, 3>(R, seed); sr::check_dyadic<float, 4, 4>(R, seed); sr::check_dyadic<float, 1, 1>(R, seed); sr::check_dyadic<float, 2, 3>(R, seed);
+                      sr::check_norm<float, 4>(R, seed); sr::check_norm<float, 9>(R, seed); sr::check_norm<float, 6>(R, seed); }
+        else { sr::check_dyadic<double, 2, 2>(R, seed); sr::check_dyadic<double, 3, 3>(R, seed); sr::check_dyadic<double, 4, 4>(R, seed); sr::check_dyadic<double, 1, 1>(R, seed); sr::check_dyadic<double, 3, 2>(R, seed);
+               sr::check_norm<double, 4>(R, seed); sr::check_norm<double, 9>(R, seed); sr::check_norm<double, 5>(R, seed); }
+#ifdef FASTOR_AVX_IMPL
+        if (t == 0) { R.begin("kernel_transpose8_ps"); sr::Rng rng(seed + 77);
+            for (int k = 0; k < 20; ++k) { alignas(32) float m[8][8]; __m256 r[8];
+                for (int i = 0; i < 8; ++i) { for (int j = 0; j < 8; ++j) m[i][j] = (float)(int)(rng.next() % 1000); r[i] = _mm256_load_ps(m[i]); }
+                Fastor::internal::_MM_TRANSPOSE8_PS(r[0], r[1], r[2], r[3], r[4], r[5], r[6], r[7]);
+                for (int i = 0; i < 8; ++i) { alignas(32) float o[8]; _mm256_store_ps(o, r[i]); for (int j = 0; j < 8; ++j) { ++R.n; if (o[j] != m[j][i]) R.fail("row " + std::to_string(i) + " col " + std::to_string(j)); } } }
+            R.end(); }
+        else { R.begin("kernel_transpose4_pd"); sr::Rng rng(seed + 78);
+            for (int k = 0; k < 20; ++k) { alignas(32) double m[4][4]; __m256d r[4];
+                for (int i = 0; i < 4; ++i) { for (int j = 0; j < 4; ++j) m[i][j] = (double)(int)(rng.next() % 1000); r[i] = _mm256_load_pd(m[i]); }
+                Fastor::internal::_MM_TRANSPOSE4_PD(r[0], r[1], r[2], r[3]);
+                for (int i = 0; i < 4; ++i) { alignas(32) double o[4]; _mm256_store_pd(o, r[i]); for (int j = 0; j < 4; ++j) { ++R.n; if (o[j] != m[j][i]) R.fail("row " + std::to_string(i) + " col " + std::to_string(j)); } } }
+            R.end(); }
+#endif
+    }
+}
 using sr::run_simd;
